@@ -35,13 +35,13 @@ PROPS = {
     "C01": dict(
         title="Field arithmetic is exact for every element representation",
         verus=[("w64_prim", None, "quick"), ("gf255_m64_lin", None, "quick"), ("gf255_m64_shift", None, "quick"),
-               ("gf255_m64_mul", 120, "quick", ARITH6, 300), ("gf255_m64_ops", None, "quick")],
+               ("gf255_m64_mul", 120, "quick", ARITH6, 300), ("gf255_m64_ops", None, "quick"), ("modint_lin", 60, "quick")],
         kani=_gf255_k(["k_add", "k_sub", "k_neg", "k_half"]),
         cases=_f(["add", "sub", "neg", "half", "mul", "mul2", "mul4", "mul8", "mul16", "mul32", "mulk", "mul_small", "smallmul", "mul_b127",
                   "square", "xsquare", "bits"]),
-        level_text="GF255<MQ> (64-bit limbs; instantiated as GF25519, GF255e, GF255s): add, sub, neg, half, mul2..mul32, the full 4x4-limb multiplication and the dedicated squaring with their two-step pseudo-Mersenne reduction, repeated squaring (loop invariant, any n) and every +,-,* operator impl are proved by Verus against fe(result) == op(fe(args)) mod 2^255-MQ for every limb pattern and every admissible MQ; add/sub/neg/half additionally by Kani on the full 2^512 input domain. Other field types, squaring and the other backends: executable-postcondition stand-in only.",
+        level_text="GF255<MQ> (64-bit limbs; instantiated as GF25519, GF255e, GF255s): add, sub, neg, half, mul2..mul32, the full 4x4-limb multiplication and the dedicated squaring with their two-step pseudo-Mersenne reduction, repeated squaring (loop invariant, any n) and every +,-,* operator impl are proved by Verus against fe(result) == op(fe(args)) mod 2^255-MQ for every limb pattern and every admissible MQ; add/sub/neg/half additionally by Kani on the full 2^512 input domain. ModInt256<M0..M3> (all scalar fields and the P-256 field; any odd modulus with a non-zero top limb): set_add (both code paths), set_sub, set_neg, set_mul2/3/4/8/16/32 proved by Verus on the internal (Montgomery) representation with the invariant value < m. Montgomery multiplication/reduction, the other field types and backends: executable-postcondition stand-in only.",
         level_note="Trusted: Verus+Z3, Kani/CBMC, the x86 add-with-carry intrinsics (assumed to behave as the portable arms that are proved), extraction transformations listed in evidence. Not reached by any contract: ModInt256, GF448, GFsecp256k1, gfgen, binary fields, 32-bit/51-bit/clmul backends.",
-        not_reached=["ModInt256 (Montgomery) arithmetic", "GF448", "GFsecp256k1", "define_gfgen! (ed448 scalar)", "GFb127/GFb254",
+        not_reached=["ModInt256 set_mul / set_square / set_montyred / set_half (stand-in only)", "GF448", "GFsecp256k1", "define_gfgen! (ed448 scalar)", "GFb127/GFb254",
                      "GF255 set_mul_small, set_lin, set_lindiv31abs (stand-in only)", "gf255_m51, w32 backend, gfb254_x86clmul/arm64pmull"],
     ),
     "C03": dict(
@@ -158,7 +158,7 @@ PROPS = {
     ),
     "C20": dict(
         title="Masked selection primitives select exactly as their control word says",
-        verus=[("gf255_m64_lin", None, "quick"), ("gf255_m64_lookup", None, "quick")],
+        verus=[("gf255_m64_lin", None, "quick"), ("gf255_m64_lookup", None, "quick"), ("modint_lin", 60, "quick")],
         kani=_gf255_k(["k_iszero_equals", "k_cond_select_cswap"]) + _gf255_k(["k_lookup16", "k_lookup16_x4"], quick_fields=()),
         cases=_f(["cond", "select", "cswap", "equals", "iszero", "lookup16_x3", "lookup16_x4", "lookup"]),
         level_text="GF255<MQ>: set_cond, select, cswap (exact copies/swaps for ctl in {0,0xFFFFFFFF}, whole-struct frames), iszero and equals (0xFFFFFFFF iff values equal mod q, for all three representations of zero), lookup16_x3/x4 (exact entry for j<16, zeros for every other u32) proved by Verus; the same by Kani on the full domain. Other field types and point-level selection/lookups: stand-in only.",
